@@ -540,3 +540,10 @@ T("fixes.redundant_enumerate",
   "print([i for i, _ in enumerate('ab')])\n")
 T("fixes.unused_zip_args",
   "for a, b in zip([1, 2], 'xy'):\n    print(a, b)\n")
+# compound tests through _negate_condition (De Morgan, reversed comparisons, double negation)
+T("fixes.swap_if_else",
+  "def f(a, b):\n    if a and b:\n        pass\n    else:\n        return 'else'\n    return 'body'\nprint([f(a, b) for a in (0, 1) for b in (0, 1)])\n",
+  "def f(a, b, c):\n    if a or (b and not c):\n        pass\n    else:\n        return 'else'\n    return 'body'\nprint([f(a, b, c) for a in (0, 1) for b in (0, 1) for c in (0, 1)])\n",
+  "def f(a, b):\n    if not (a < b) or a == 3:\n        pass\n    else:\n        return 'else'\n    return 'body'\nprint([f(a, b) for a in (1, 2, 3) for b in (1, 2, 3)])\n")
+T("fixes.early_continue",
+  "out = []\nfor a in (0, 1):\n    for b in (0, 1):\n        if a and not b:\n            out.append(1)\n            out.append(2)\n            out.append(3)\n            out.append(4)\n            out.append(5)\n            out.append((a, b))\nprint(out)\n")
